@@ -37,6 +37,14 @@ claimed = {
          "Messages are built through the public API with symbolic strings (all 256 byte values: CR/LF/colon/space/NUL/BOM), encoded by the real WriteTo, concatenated, and decoded both by an independently written WHATWG interpreter in browser mode and by go-sse's real Read (bufio.Scanner and all, from SSA); z3 decides on every path that exactly one event per message with data comes out with the LF-joined lines, type and ID that were set, and that every wire form ends in exactly one blank line with no inner blank line or CR (the lemma that extends the claim to longer concatenations).",
          "Trusted: as C15; the oracle in harness/sse_oracle.go is part of the claim; one listed known finding (IDs containing NUL).",
          "DESIGN.md §5 C02"),
+ "C16": (E1, "bounded symbolic execution of the real go/ssa + SMT (z3): all Send/Flush sequences of length K x writer shapes x symbolic fault position",
+         "Upgrade, Session.Send/Flush/doUpgrade, getResponseWriter, Message.WriteTo, Server.ServeHTTP/getSubscription are executed from SSA against a recording fault-injecting ResponseWriter whose failing call index is symbolic; a monitor over the ordered log decides header-before-body, single upgrade, body = concatenation of encodings, flush-pushes-everything and error attribution on every path; ServeHTTP is run with symbolic Last-Event-Id header, every OnSession outcome class and a refusing provider.",
+         "Trusted: go/ssa, executor semantics (replay of counterexamples and sample paths natively), z3; http.Error is stubbed as WriteHeader+Write; interface type switches decided from go/types method sets.",
+         "DESIGN.md §5 C16"),
+ "C13": (E1, "bounded symbolic execution of the real go/ssa + SMT (z3): all histories of K subscribe/unsubscribe/dispatch operations with symbolic event types; lock discipline checked on every access",
+         "Connection.addSubscriber/addSubscriberToAll/dispatch and the remover closures are executed from SSA over every history of K operations with symbolic type strings (map keys compared by the solver); a second goroutine that unsubscribes during a dispatch is modelled at every callback boundary and completes iff the RWMutex is free; the executor's mutex model checks that callbacks/callbacksAll/callbackID are only read under the lock and only written under the exclusive lock. The oracle is a flat list of subscriptions.",
+         "Trusted: as C16; sequential consistency of sync.RWMutex; Go's random map iteration order replaced by insertion order (assertions are insensitive to it); real parallel data races are represented by the lock discipline only.",
+         "DESIGN.md §5 C13"),
 }
 pending = "check not built yet (engine work in progress; will be decided with the same SSA->SMT technique or declared not applicable)"
 na_reasons = {}
